@@ -897,7 +897,7 @@ func (c *pcCtx) rangeLoop(x *ast.RangeStmt, k pgNode) pgNode {
 	for _, t := range stt {
 		hdr += " → " + t
 	}
-	hdr += " → M " + resT
+	hdr += " → " + c.g.mon() + " " + resT
 	base := "  | " + strings.Join(append([]string{"[]"}, stn...), ", ") + " => " + doneCode + "\n"
 	pat := vv
 	if vv == "_" {
@@ -1055,7 +1055,7 @@ func (c *pcCtx) liftTail(list []ast.Stmt, k pgNode) pgNode {
 		hdr += " (rec_" + f.key + " : " + f.ftype + ")"
 		call = append(call, pcP(c.recRef[f]))
 	}
-	hdr += " : M " + c.resLean + " := do"
+	hdr += " : " + c.g.mon() + " " + c.resLean + " := do"
 	*c.aux = append(*c.aux, hdr+"\n"+strings.Join(lines, "\n")+"\n")
 	return c.stmts(list[:cut+1], &pgTerm{strings.Join(call, " ")})
 }
